@@ -107,3 +107,54 @@ Proof.
     unfold cnt in Hpos. apply (count_occ_In N.eq_dec). exact Hpos.
   - exfalso. apply Hincl in Hw. fold acts in Hw. apply (apanic_panics acts (init_r b) w Hw). exact Hnp.
 Qed.
+
+(* ---- spacing ------------------------------------------------------------------------------------- *)
+(* every decorator case stores both spacings and assigns no path; every restorer case applies both
+   spacings *)
+Definition spacing_coherent (dtbl : list (string * list nstmt)) (rtbl : list (string * list rstmt)) : bool :=
+  forallb (fun e => String.eqb (fst e) "Package" || (stores_spacing (snd e) && sets_no_path (snd e) &&
+     match lookup rtbl (fst e) with
+     | Some l => existsb (fun s => match s with RSpace a => negb a | _ => false end) (case_body l) &&
+                 existsb (fun s => match s with RSpace a => a | _ => false end) (case_body l)
+     | None => false
+     end)) dtbl.
+
+(* The Before / After spacing link computed for a node reachable through the fragment table is the
+   spacing the restorer applies at that node. *)
+Theorem pipeline_applies_link_spacing ftbl dtbl rtbl du (att : lstate) t t' :
+  frag_dec_coherent ftbl dtbl du = true -> tbl_wf dtbl = true -> dec_rest_coherent dtbl rtbl = true ->
+  spacing_coherent dtbl rtbl = true ->
+  (forall f, FragReach.desc t f -> tkind f = "File" -> imports_aliased f) ->
+  reach (frag_paths ftbl) t t' -> tkind t' <> "Package" ->
+  (exists stmts, lookup dtbl (tkind t') = Some stmts) ->
+  let acts := flatten rtbl false (fun _ => None) (decorateD du dtbl att t) in
+  In (ASpace (is_bad_kind (tkind t')) false (space_of (l_before att) (tid t'))) acts /\
+  In (ASpace (is_bad_kind (tkind t')) true (space_of (l_after att) (tid t'))) acts.
+Proof.
+  intros C1 C2 C3 C4 Hal Hr Hnp [stmts E] acts.
+  destruct (coherent_decls_specs _ _ _ C1) as [HD HS].
+  assert (Hr2 : reach (dec_in_paths dtbl keep_n) t t').
+  { eapply reach_mono; [apply (coherent_paths _ _ _ C1)|]. apply (reach_without_alias ftbl HD HS t t' Hr Hal). }
+  pose proof (reach_stored du dtbl att keep_n C2 t t' Hr2) as Hr3.
+  assert (Hr4 : reach (rest_in_paths rtbl) (decorateD du dtbl att t) (dres du dtbl att t'))
+    by (eapply reach_mono; [apply (coherent_out_paths _ _ C3)|exact Hr3]).
+  pose proof (reach_acts_included rtbl false (fun _ => None) (coherent_plain _ _ C3) _ _ Hr4) as Hincl.
+  unfold spacing_coherent in C4. rewrite forallb_forall in C4. specialize (C4 (tkind t', stmts) (lookup_In _ _ _ E)). cbn [fst snd] in C4.
+  apply orb_true_iff in C4. destruct C4 as [C4|C4]; [apply String.eqb_eq in C4; contradiction|].
+  apply andb_true_iff in C4. destruct C4 as [C4 Hrs]. apply andb_true_iff in C4. destruct C4 as [Hsp Hnp2].
+  destruct (dres_id_kind du dtbl att t' stmts E) as [Hid [Hk _]].
+  destruct (spacing_stored du dtbl att t' stmts E Hsp) as [Hb Ha].
+  pose proof (no_path_val du dtbl att t' stmts E Hnp2) as Hpath.
+  assert (Hpu : ident_path_uid (dres du dtbl att t') = 0%N) by (unfold ident_path_uid; rewrite Hpath; reflexivity).
+  rewrite <- Hk in Hrs. destruct (lookup rtbl (tkind (dres du dtbl att t'))) as [l|] eqn:El; [|discriminate].
+  apply andb_true_iff in Hrs. destruct Hrs as [R1 R2].
+  split.
+  - pose proof (space_action rtbl (dres du dtbl att t') false l El) as Hact.
+    rewrite Hk, Hb in Hact. apply Hincl. apply Hact; [|intros _; exact Hpu].
+    clear -R1. induction (case_body l) as [|s r IH]; [discriminate|]. cbn [existsb] in *. apply orb_true_iff in R1. apply orb_true_iff.
+    destruct R1 as [R1|R1]; [left; destruct s; try discriminate; destruct after; [discriminate|reflexivity]|right; apply IH; exact R1].
+  - pose proof (space_action rtbl (dres du dtbl att t') true l El) as Hact.
+    rewrite Hk, Ha in Hact. apply Hincl. apply Hact; [|intros _; exact Hpu].
+    clear -R2. induction (case_body l) as [|s r IH]; [discriminate|]. cbn [existsb] in *. apply orb_true_iff in R2. apply orb_true_iff.
+    destruct R2 as [R2|R2]; [left; destruct s; try discriminate; destruct after; [reflexivity|discriminate]|right; apply IH; exact R2].
+Qed.
